@@ -1,6 +1,7 @@
 package acmelib
 
 import (
+	"cmp"
 	"io"
 	"slices"
 	"strings"
@@ -163,37 +164,49 @@ func (s *saver) saveNetwork(net *Network) *acmelibv1.Network {
 	}
 
 	canIDBuilders := maps.Values(s.refCANIDBuilders)
-	slices.SortFunc(canIDBuilders, func(a, b *CANIDBuilder) int { return strings.Compare(a.name, b.name) })
+	slices.SortFunc(canIDBuilders, func(a, b *CANIDBuilder) int {
+		return orCompare(strings.Compare(a.name, b.name), func() int { return compareEntityIDs(a.entityID, b.entityID) })
+	})
 	for _, canIDBuilder := range canIDBuilders {
 		pNet.CanidBuilders = append(pNet.CanidBuilders, s.saveCANIDBuilder(canIDBuilder))
 	}
 
 	nodes := maps.Values(s.refNodes)
-	slices.SortFunc(nodes, func(a, b *Node) int { return int(a.id - b.id) })
+	slices.SortFunc(nodes, func(a, b *Node) int {
+		return orCompare(cmp.Compare(a.id, b.id), func() int { return compareEntityIDs(a.entityID, b.entityID) })
+	})
 	for _, node := range nodes {
 		pNet.Nodes = append(pNet.Nodes, s.saveNode(node))
 	}
 
 	sigTypes := maps.Values(s.refSigTypes)
-	slices.SortFunc(sigTypes, func(a, b *SignalType) int { return strings.Compare(a.name, b.name) })
+	slices.SortFunc(sigTypes, func(a, b *SignalType) int {
+		return orCompare(strings.Compare(a.name, b.name), func() int { return compareEntityIDs(a.entityID, b.entityID) })
+	})
 	for _, sigType := range sigTypes {
 		pNet.SignalTypes = append(pNet.SignalTypes, s.saveSignalType(sigType))
 	}
 
 	sigUnits := maps.Values(s.refSigUnits)
-	slices.SortFunc(sigUnits, func(a, b *SignalUnit) int { return strings.Compare(a.name, b.name) })
+	slices.SortFunc(sigUnits, func(a, b *SignalUnit) int {
+		return orCompare(strings.Compare(a.name, b.name), func() int { return compareEntityIDs(a.entityID, b.entityID) })
+	})
 	for _, sigUnit := range sigUnits {
 		pNet.SignalUnits = append(pNet.SignalUnits, s.saveSignalUnit(sigUnit))
 	}
 
 	sigEnums := maps.Values(s.refSigEnums)
-	slices.SortFunc(sigEnums, func(a, b *SignalEnum) int { return strings.Compare(a.name, b.name) })
+	slices.SortFunc(sigEnums, func(a, b *SignalEnum) int {
+		return orCompare(strings.Compare(a.name, b.name), func() int { return compareEntityIDs(a.entityID, b.entityID) })
+	})
 	for _, sigEnum := range sigEnums {
 		pNet.SignalEnums = append(pNet.SignalEnums, s.saveSignalEnum(sigEnum))
 	}
 
 	attributes := maps.Values(s.refAttributes)
-	slices.SortFunc(attributes, func(a, b Attribute) int { return strings.Compare(a.Name(), b.Name()) })
+	slices.SortFunc(attributes, func(a, b Attribute) int {
+		return orCompare(strings.Compare(a.Name(), b.Name()), func() int { return compareEntityIDs(a.EntityID(), b.EntityID()) })
+	})
 	for _, att := range attributes {
 		pNet.Attributes = append(pNet.Attributes, s.saveAttribute(att))
 	}
